@@ -206,7 +206,7 @@ PROPS = {
                idxdom.idx_domain, sensor.sm_gate, layout.sd_transform, layout.ff_comp,
                layout.result_form, lambda c: layout.res_collect(c, (sched.FF,)), layout.assembly,
                lambda c: sched.sched_span(c, (sched.FF,)), lambda c: sched.avg_rate(c, (sched.FF,)),
-               lambda c: layout.init_state(c, (sched.FF,)),
+               lambda c: layout.init_state(c, (sched.FF,)), layout.call_roles,
                lambda c: interp.interp_rules(c, ('feedforward',))],
         decided=['every measurement sample is fused exactly once (epoch list de-duplicated, cursor pairing, no epoch overtaken: the C10 rules on the feedforward loop)',
                  'the epoch state is the interpolation between the bracketing rows with the elapsed fraction; propagation matrices at the mid-point state',
@@ -228,7 +228,7 @@ PROPS = {
                lambda c: sched.sched_sibling(c, ('feedback', 'feedforward')),
                integrator.last_row, smmodel.sm_model, layout.result_form, layout.res_collect,
                layout.assembly, sched.sched_span, sched.avg_rate, sched.step_bound_fb,
-               sched.step_bound, layout.init_state],
+               sched.step_bound, layout.init_state, layout.call_roles],
         decided=['both filters fuse the same set of measurement samples: same epoch-list stages (merge, de-duplication, clip to [start, end], sentinel) in both loops',
                  'both filters reset both sensor models before any use (re-run reproducibility)',
                  'feedback effects (set_pva, update_estimates, correct) only inside the '
@@ -342,5 +342,24 @@ def run(ctx):
             _diff.wrap_rules(ctx)
         except AnalysisError as e:
             deferred = deferred or e
+    if deferred is not None and not ctx.findings and _expr.RUNTIME_FAILURES:
+        # the rules could not analyse the code because the code itself fails for the evaluated
+        # configuration (index out of bounds, shapes that numpy cannot broadcast, an np.empty
+        # element read before it is written): that is a finding about the code, not a limit of
+        # the analysis
+        ctx.rule('RUNTIME-FAILURE', 'functions evaluated by the rules run without raising (and '
+                 'without reading uninitialised memory) for the evaluated call forms')
+        seen = set()
+        for e in _expr.RUNTIME_FAILURES:
+            wf, wst = getattr(e, 'where', (None, None))
+            k = (getattr(wf, 'fq', None), getattr(wst, 'lineno', None), str(e))
+            if k in seen or not hasattr(wf, 'fq'):
+                continue
+            seen.add(k)
+            from .model import norm_text as _nt
+            ctx.ob('RUNTIME-FAILURE', False, None, 'evaluates', f=wf, node=wst,
+                   key='%s:%s' % (wf.name, str(e)[:60]),
+                   why='`%s` fails when evaluated: %s (the rule that evaluated it reported: %s)'
+                       % (_nt(wst)[:80] if wst is not None else wf.name, e, str(deferred)[:120]))
     if deferred is not None and not ctx.findings:
         raise deferred
